@@ -447,9 +447,29 @@ fn run_l1_at(case: &Case, i: usize, out: &mut Outcome) {
                 detail(),
             ),
             Res::Err(msg) => {
-                if !msg.contains(&site_name(cs, h)) {
-                    // strict mode may legitimately stop at an earlier skipped site
-                    if !(cfg.strict && msg.contains("strict mode")) {
+                // a ploidy error must name its site (for a source I/O error only failing is demanded)
+                let first_is_ploidy = (h == i && case.fault == Fault::PloidySelected)
+                    || (Some(h) == second_at && h != i && case.second == Some(Fault::PloidySelected));
+                if first_is_ploidy && !msg.contains(&site_name(cs, h)) {
+                    // strict mode may legitimately stop earlier, at the first site the non-strict
+                    // run would skip: taken from a non-strict run over the records before the fault
+                    let (sel, _) = selected(cs, &cfg);
+                    let cut = items
+                        .iter()
+                        .position(|it| match it {
+                            Item::SourceError { .. } => true,
+                            Item::Rec { g, .. } => sel.iter().any(|&s| g.get(s) == Some(&G_PLOIDY)),
+                            Item::DoneOnce => false,
+                        })
+                        .unwrap_or(items.len());
+                    let earlier = if cfg.strict {
+                        let mut c2 = cfg.clone();
+                        c2.strict = false;
+                        l1_run(cs, &c2, items[..cut].to_vec()).out.skipped_sites.first().cloned()
+                    } else {
+                        None
+                    };
+                    if !earlier.map(|s| msg.contains(&s)).unwrap_or(false) {
                         out.violate(
                             "failure_not_first_or_unnamed",
                             format!("C10 L1 {:?}: error does not name the first failing site", case.fault),
@@ -805,12 +825,25 @@ fn run_l2_at(case: &Case, i: usize, ctx: &mut Ctx, out: &mut Outcome) {
                     "C10 L2 ploidy error in a selected sample but exit 0".into(),
                     detail(),
                 );
-            } else if case.verbosity < 4 && !stderr.contains(&site_name(cs, i)) && !stderr.contains("strict mode") {
-                out.violate(
-                    "failure_not_first_or_unnamed",
-                    "C10 L2 ploidy error: message does not name the site".into(),
-                    detail(),
-                );
+            } else if case.verbosity < 4 && !stderr.contains(&site_name(cs, i)) {
+                // strict mode may legitimately stop earlier, at the first site the non-strict run
+                // reports as skipped before it reaches the ploidy error
+                let earlier = if cfg.strict {
+                    let mut c2 = cfg.clone();
+                    c2.strict = false;
+                    let relaxed = l2_create(ctx, &c2, &bytes, None, 0, case.samples_file);
+                    out.evals += 1;
+                    parse_skipped(&relaxed.stderr_text()).1.first().cloned()
+                } else {
+                    None
+                };
+                if !earlier.map(|s| stderr.contains(&s)).unwrap_or(false) {
+                    out.violate(
+                        "failure_not_first_or_unnamed",
+                        "C10 L2 ploidy error: message does not name the site".into(),
+                        detail(),
+                    );
+                }
             }
         }
         Fault::ReadErrorAtRecord => {
